@@ -269,6 +269,72 @@ fn runn<T: QElem>(c: &CaseN, dev: u32, lx: &mut Local) {
     });
 }
 
+#[derive(Debug, Clone)]
+struct LongCase {
+    n: usize,
+    fam: usize,
+    strat: Strat,
+    policy: Policy,
+}
+
+fn long_input(n: usize, fam: usize) -> Vec<i64> {
+    (0..n)
+        .map(|i| match fam {
+            0 => i as i64,
+            1 => (n - 1 - i) as i64,
+            2 => (if i < n / 2 { 2 * i } else { 2 * (n - 1 - i) + 1 }) as i64,
+            3 => (i % 2) as i64,
+            4 => 0,
+            _ => (i % 7) as i64,
+        })
+        .map(|r| r * 1000 - 7)
+        .collect()
+}
+
+/// long lanes under adversarial pivot policies (recursion depth ~ n): single and bulk quantiles
+fn run_long(c: &LongCase, lx: &mut Local) {
+    let vals = long_input(c.n, c.fam);
+    let mut sorted = vals.clone();
+    sorted.sort();
+    let grid = q_grid_small(c.n);
+    let stride = (grid.len() / 10).max(1);
+    let qs: Vec<f64> = grid.iter().cloned().skip(c.fam % stride).step_by(stride).chain(vec![0.0, 1.0]).collect();
+    let mode = PivotMode::Bounded { policy: c.policy, bound: 0 };
+    for &q in &qs {
+        let jd = Judge::new(&sorted, q, c.strat);
+        lx.explore(&mode, |lx| {
+            let mut a = Array1::from(vals.clone());
+            let r = guarded(|| nsmc::with_strategy!(c.strat, i, a.quantile_mut(n64(q), i)));
+            let got = match r {
+                Ok(Ok(v)) => Some(v),
+                _ => None,
+            };
+            record(lx, &jd, got.as_ref(), &|| format!("quantile_mut on a lane of length {} (family {}) under pivot policy {:?}", c.n, c.fam, c.policy));
+            hash_of(&got)
+        });
+    }
+    let jds: Vec<Judge<i64>> = qs.iter().map(|&q| Judge::new(&sorted, q, c.strat)).collect();
+    lx.explore(&mode, |lx| {
+        let mut a = Array1::from(vals.clone());
+        let qa = Array1::from(qs.iter().map(|&q| n64(q)).collect::<Vec<N64>>());
+        let r = guarded(|| nsmc::with_strategy!(c.strat, i, a.quantiles_mut(&qa, i)));
+        match r {
+            Ok(Ok(res)) => {
+                for (j, jd) in jds.iter().enumerate() {
+                    if j < res.len() {
+                        record(lx, jd, Some(&res[j]), &|| format!("quantiles_mut request #{} (q={:?}) on a lane of length {} (family {}) under pivot policy {:?}", j, qs[j], c.n, c.fam, c.policy));
+                    }
+                }
+                hash_of(&res.to_vec())
+            }
+            other => {
+                lx.fail("C01/panic", || format!("quantiles_mut on a long lane failed: {:?}; {:?}", other.map(|r| r.map(|_| ())), c));
+                0
+            }
+        }
+    });
+}
+
 fn main() {
     let mut rep = Report::new("C01");
     rep.rule = "case = (weak-order pattern, value table, element type, strategy, single/bulk) in 1-D with the q grid and all pivot sequences inside; (shape, axis, layout, content family, strategy, pivot policy, type) in n-D; non-trivial = lane length >= 2".into();
@@ -345,6 +411,17 @@ fn main() {
                 1 => runn::<N64>(c, dev, lx),
                 _ => runn::<u8>(c, dev, lx),
             }
+        },
+    );
+    let nlong = rep.cfg.pick(96, 250);
+    let cases = (13..=nlong).flat_map(|n| (0..6usize).flat_map(move |fam| Policy::ADVERSARIAL.iter().enumerate().map(move |(pi, &policy)| LongCase { n, fam, strat: Strat::ALL[(n + fam + pi) % 5], policy }).collect::<Vec<_>>()));
+    rep.run_sub(
+        "long-lanes-adversarial-policies",
+        &format!("every lane length 13..={} x 6 input families (increasing, decreasing, organ pipe, two-valued, all equal, sawtooth) x policies first / last / parity-alternating ends / middle (0 deviations: recursion depth up to n-1) x ~12 q from the boundary grid x strategy rotating; quantile_mut and quantiles_mut on i64", nlong),
+        cases,
+        |c, lx| {
+            lx.nontrivial(true);
+            run_long(c, lx)
         },
     );
     rep.finish();
